@@ -54,6 +54,15 @@ CLAIMED = {
         "Nine PYTHONHASHSEED values, not all; .log/.json debug dumps excluded; setup.py (embeds the output path) compared only between runs given the same relative path.",
         "DESIGN.md section 3 C07",
     ),
+    "C14": (
+        "exhaustive enumeration of equivalent description pairs (setting x value x container placement, inline vs attrs, CLI/YAML splits, block groupings, create_wrapper) with byte equality of whole output directories",
+        "For every function-scoped option and format field, every container (library, namespace, class, block in class, block in namespace; library and block of a C library) "
+        "and a non-default value, the output with the setting on the container must be byte-identical to the output with it on every function inside and nowhere else; every "
+        "documented attribute inline vs attrs/fattrs; every split of a six-option set between --option/--language and the YAML (and overriding); every grouping of a five-declaration "
+        "list into empty blocks; create_wrapper vs the command line on three descriptions.",
+        "The list of function-scoped settings was vetted against the code; CXX_this (class-level) and, on containers holding a class, the F_name_*_template options are excluded because the container consumes them itself.",
+        "DESIGN.md section 3 C14",
+    ),
 }
 
 PENDING_REASON = "check not built yet in this round (planned, see DESIGN.md section 8); not claimed until it runs"
